@@ -122,6 +122,45 @@ def vfskip (req : Json) : R Reply := do
     let bad := vfWrong skip orderFull orderSkip samples
     return { model, holds := bad.isEmpty, info := strsJ bad, hyp }
 
+/-- op "ifskip": interpolatable masters compiled from a designspace with SPARSE sources, with and without a skip list.
+    in = {skip, locs, defaultIdx, masters};
+    obs = {err} | {masters: [[name, orderFull, orderSkip, hmtxSkip, samples, cmapFull, cmapSkip]]}.
+    `holds`: `ifWrong` on the observed masters (declarative).  `model`: the glyph names of every source after the model's
+    `SkipExportGlyphsIFilter` (`skipFamily`), compared by the harness with the glyph orders of the compiled masters. -/
+def ifskip (req : Json) : R Reply := do
+  let i ← field req "in"
+  let skip ← asList asStr (← field i "skip")
+  let obs ← field req "obs"
+  let oerr ← asOpt asStr (← field obs "err")
+  let ms ← asList asGlyphSet (← field i "masters")
+  let I : C09.Inst := { locs := ← asList asRat (← field i "locs"), defaultIdx := ← asNat (← field i "defaultIdx") }
+  let model := match skipFamily skip I ms with
+    | .error e => Json.mkObj [("err", gerrJ e)]
+    | .ok ms' => Json.mkObj [("err", Json.null), ("names", listJ (fun (m : GlyphSet) => strsJ (sortStr m.names)) ms')]
+  match oerr with
+  | some _ => return { model, holds := false }
+  | none =>
+    let asCmap (j : Json) : R (List (Nat × String)) := asList (fun e => do
+      match ← asArr e with
+      | [u, n] => pure ((← asNat u, ← asStr n) : Nat × String)
+      | _ => throw "cmap") j
+    let masters ← asList (fun j => do
+      match ← asArr j with
+      | [nm, oF, oS, hS, smp, cF, cS] =>
+        let samples ← asList (fun j => do
+          match ← asArr j with
+          | [loc, n, a, b, dF, dS] =>
+            pure ((← asStr loc, ← asStr n, ← asInt a, ← asInt b, ← asList (asList asPt) dF, ← asList (asList asPt) dS) :
+              String × String × Int × Int × List (List (Int × Int)) × List (List (Int × Int)))
+          | _ => throw "sample") smp
+        pure ((← asStr nm, ← asList asStr oF, ← asList asStr oS, ← asList asStr hS, samples, ← asCmap cF, ← asCmap cS) :
+          String × List String × List String × List String ×
+            List (String × String × Int × Int × List (List (Int × Int)) × List (List (Int × Int))) ×
+            List (Nat × String) × List (Nat × String))
+      | _ => throw "ifmaster") (← field obs "masters")
+    let bad := ifWrong skip masters
+    return { model, holds := bad.isEmpty, info := strsJ bad }
+
 /-- a glyph of a compiled TrueType font: [name, adv, null | [[base, useMyMetrics, roundXY, x, y, plain]]] -/
 def asTTGlyph (j : Json) : R (String × Int × Option (List (String × Bool × Bool))) := do
   match ← asArr j with
@@ -180,6 +219,7 @@ def handle (op : String) (req : Json) : R Reply :=
   | "filter" => filter req
   | "compile" => compile req
   | "resolve" => resolve req
+  | "ifskip" => ifskip req
   | _ => throw s!"C13: unknown op {op}"
 
 end Ufo2ft.Drv.C13
